@@ -21,6 +21,9 @@ import (
 // enqueue, routeResponse, deleteRouter.
 
 type c11Ghost struct {
+	atDoneSeen   bool
+	atDoneLevel  int
+	atDoneErrNil bool
 	n        int
 	stream   bool
 	skip     []bool
@@ -103,6 +106,19 @@ func VerifC11(nmax, maxEvents, streamArg int) {
 	w1l := vChoice("watch1", 3) - 1
 	w0 := corr.Watch(w0l)
 	w1 := corr.Watch(w1l)
+	// two readers that act the moment they are released (not at quiescence): a released
+	// watcher must find its level published - or the call complete - in Get "at once", and
+	// whoever sees Done closed must already see the final state
+	go func() {
+		<-w0
+		_, lvl, _ := corr.Get()
+		vAssert(lvl >= w0l || c11Closed(corr.Done()), "C11.released-watcher-sees-stale-state")
+	}()
+	go func() {
+		<-corr.Done()
+		_, lvl, err := corr.Get()
+		g.atDoneSeen, g.atDoneLevel, g.atDoneErrNil = true, lvl, err == nil
+	}()
 	vQuiescent()
 	c11Observe(g, corr, w0, w0l, w1, w1l)
 	var msgID uint64
@@ -175,6 +191,7 @@ func c11Observe(g *c11Ghost, corr *Correctable, w0 <-chan struct{}, w0l int, w1 
 		// done is final: nothing changes any more
 		vAssert(isDone, "C11.done-reopened")
 		vAssert(val == g.finalVal && level == g.finalLevel && (err == nil) == g.finalErrNil, "C11.get-changed-after-done")
+		vAssert(g.atDoneSeen && g.atDoneLevel == g.finalLevel && g.atDoneErrNil == g.finalErrNil, "C11.get-changed-after-done.reader-released-by-Done")
 		vAssert(g.targeted == 0 || (c11Closed(w0) && c11Closed(w1)), "C11.watcher-not-released-at-done")
 		vReach("observed-after-done")
 		return
